@@ -217,12 +217,10 @@ class Harness:
 
 # ---------------------------------------------------------------------- M2(a): TLC cases -> real _dqn_loss
 def rclass(case: dict, q: int) -> str:
+    """Kind of input for violation signatures: does the clamp act on some row (reward outside the support)?"""
     lo, hi = q * case["vmin"], q * (case["vmin"] + case["N"] - 1)
-    cl = set()
-    for r in case["rows"]:
-        x = r["rq"]
-        cl.add("outside" if x < lo or x > hi else ("on-atom" if x % q == 0 else "between"))
-    return "+".join(sorted(cl))
+    clipped = any(r["rq"] < lo or r["rq"] > hi for r in case["rows"])
+    return ("reward-outside-support" if clipped else "reward-inside-support") + ("" if case["B"] == 1 else ":multi-row")
 
 
 class Replayer:
@@ -407,7 +405,10 @@ def run_real_networks(*, N: int, vmin: int, B: int, gamma: float, seed: int, q: 
         greedy = ag.actor(nobs).argmax(1)
         src = ag.actor_target(nobs, q=False)[range(B), greedy]
         logq = ag.actor(obs, q=False, log=True)[range(B), act.squeeze(1).long()]
-    out = ag._dqn_loss(obs, act, rew, nobs, done, gamma)
+    try:
+        out = ag._dqn_loss(obs, act, rew, nobs, done, gamma)
+    except Exception as e:
+        return f"Raises: {type(e).__name__}: {e}"[:300]
     rec = [f for (nm, f) in hooks.drain() if nm == "rainbow.proj"][-1]
     if not torch.equal(rec["target_q_dist"], src):
         return "Source: target_q_dist is not actor_target(next_obs, q=False)[greedy action of actor(next_obs)]"
